@@ -96,6 +96,70 @@ def gen():
         print(json.dumps(m))
 
 
+def gen2():
+    """typo-like mutants: sibling-name swaps (_a/_b, _one/_two, x/y/z suffixes), axis=k changes, slice-bound changes, argument swaps"""
+    import re
+    rnd = random.Random(20260929)
+    out = []
+    for rel in FILES:
+        src = open(os.path.join(REPO, rel)).read()
+        tree = ast.parse(src)
+        lines = src.split("\n")
+        offs = [0]
+        for l in lines:
+            offs.append(offs[-1] + len(l) + 1)
+
+        def pos(n):
+            return offs[n.lineno - 1] + n.col_offset, offs[n.end_lineno - 1] + n.end_col_offset
+        cands = {"V": [], "A": [], "L": [], "G": []}
+        for fn in ast.walk(tree):
+            if not isinstance(fn, ast.FunctionDef):
+                continue
+            names = {n.id for n in ast.walk(fn) if isinstance(n, ast.Name)} | {a.arg for a in fn.args.args}
+            for n in ast.walk(fn):
+                if isinstance(n, ast.Name) and isinstance(n.ctx, ast.Load):
+                    for a_, b_ in (("_a", "_b"), ("_b", "_a"), ("_one", "_two"), ("_two", "_one"), ("_c", "_d"), ("_d", "_c"), ("_x", "_y"), ("_y", "_z"), ("_z", "_x"),
+                                   ("_1", "_2"), ("_2", "_1")):
+                        if n.id.endswith(a_) and n.id[: -len(a_)] + b_ in names:
+                            a, b = pos(n)
+                            cands["V"].append((a, b, n.id[: -len(a_)] + b_, f"{n.id}->{n.id[:-len(a_)] + b_}"))
+                if isinstance(n, ast.keyword) and n.arg == "axis" and isinstance(n.value, ast.Constant) and isinstance(n.value.value, int):
+                    a, b = pos(n.value)
+                    for nv in (n.value.value + 1, n.value.value - 1):
+                        cands["A"].append((a, b, str(nv), f"axis {n.value.value}->{nv}"))
+                if isinstance(n, ast.Slice):
+                    for part, nm in ((n.lower, "lower"), (n.upper, "upper")):
+                        if isinstance(part, ast.Constant) and isinstance(part.value, int):
+                            a, b = pos(part)
+                            cands["L"].append((a, b, str(part.value + 1), f"slice {nm} {part.value}->{part.value + 1}"))
+                        if isinstance(part, ast.UnaryOp) and isinstance(part.op, ast.USub) and isinstance(part.operand, ast.Constant):
+                            a, b = pos(part)
+                            cands["L"].append((a, b, str(-(part.operand.value + 1)), f"slice {nm} -{part.operand.value}->-{part.operand.value + 1}"))
+                if isinstance(n, ast.Call) and len(n.args) >= 2 and not any(isinstance(x, ast.Starred) for x in n.args):
+                    # swap two adjacent positional arguments
+                    k = rnd.randrange(len(n.args) - 1)
+                    a1, b1 = pos(n.args[k])
+                    a2, b2 = pos(n.args[k + 1])
+                    if b1 <= a2 and src[a1:b1] != src[a2:b2]:
+                        cands["G"].append((a1, b2, src[a2:b2] + src[b1:a2] + src[a1:b1], f"swap args {k},{k + 1}"))
+        quota = {"V": 40, "A": 20, "L": 30, "G": 25}
+        for kind, lst in cands.items():
+            lst = sorted(set(lst))
+            if len(lst) > quota[kind]:
+                lst = sorted(rnd.sample(lst, quota[kind]))
+            for a, b, new, what in lst:
+                mutated = src[:a] + new + src[b:]
+                try:
+                    compile(mutated, rel, "exec")
+                except SyntaxError:
+                    continue
+                line = src.count("\n", 0, a) + 1
+                out.append(dict(id=f"{os.path.basename(rel)}:{line}:{kind}:{what}:{a}", file=rel, start=a, end=b, new=new, kind=kind, what=what, line=line,
+                                old=src[a:b][:120]))
+    for m in out:
+        print(json.dumps(m))
+
+
 def import_closure():
     """test file -> set of gbasis modules it (transitively) imports"""
     mods = {}
@@ -217,6 +281,8 @@ def run(inp, outp, jobs):
 if __name__ == "__main__":
     if sys.argv[1] == "gen":
         gen()
+    elif sys.argv[1] == "gen2":
+        gen2()
     else:
         if "--phase" in sys.argv:
             PHASE = sys.argv[sys.argv.index("--phase") + 1]
